@@ -154,6 +154,13 @@ func cases() []opCase {
 		opCase{"commit/persist-id", func(d *netconf.Driver) (*response.NetconfResponse, error) {
 			return d.Commit(opoptions.WithCommitConfirmedPersistID("tok-é<1>"))
 		}, `<commit><persist-id>` + esc("tok-é<1>") + `</persist-id></commit>`, ""},
+		opCase{"commit/confirmed+persist-id", func(d *netconf.Driver) (*response.NetconfResponse, error) {
+			// the follow-up of a persistent confirmed commit (RFC 6241 8.4.1): both elements
+			return d.Commit(opoptions.WithCommitConfirmed(), opoptions.WithCommitConfirmedPersistID("tok-é<1>"))
+		}, `<commit><confirmed/><persist-id>` + esc("tok-é<1>") + `</persist-id></commit>`, ""},
+		opCase{"commit/confirmed-timeout-persist", func(d *netconf.Driver) (*response.NetconfResponse, error) {
+			return d.Commit(opoptions.WithCommitConfirmed(), opoptions.WithCommitConfirmTimeout(60), opoptions.WithCommitConfirmedPersist("p1"))
+		}, `<commit><confirmed/><confirm-timeout>60</confirm-timeout><persist>p1</persist></commit>`, ""},
 		opCase{"discard", func(d *netconf.Driver) (*response.NetconfResponse, error) { return d.Discard() }, `<discard-changes></discard-changes>`, ""},
 	)
 	for _, p := range payloads {
@@ -352,10 +359,84 @@ func trunc(b []byte) string {
 	return string(b)
 }
 
+// prefScenario: the server offers both base versions and the user states a preference: the requests must be framed
+// the way the two hellos negotiated (the server model derives its framing from the client's hello, as a server does).
+func prefScenario(pref string) sched.Scenario {
+	return sched.Scenario{Name: "negotiated-framing/preferred=" + pref, Run: func(w *sched.W) {
+		cfg := cm.Cfg()
+		cfg.NoPreAlt, cfg.NoIdleAlt = true, true
+		cfg.Horizon = 5 * time.Second
+		w.Explore(cfg, sched.Bounds{}, func(e *sched.Env) {
+			srv := &dev.NCServer{Hello: dev.HelloDoc([]string{dev.Cap10, dev.Cap11}, "3")}
+			tr := dev.NewFake(e, srv)
+			srv.Out = tr.Inject
+			tr.NextEnd = srv.NextEnd
+			var resps []*response.NetconfResponse
+			var errs []error
+			var openErr error
+			e.Go("client", func() {
+				opts := cm.BaseOpts(tr, cm.Ms, time.Second, 0)
+				if pref != "" {
+					opts = append(opts, options.WithNetconfPreferredVersion(pref))
+				}
+				d, err := netconf.NewDriver("dev", opts...)
+				if err != nil {
+					openErr = err
+					return
+				}
+				if openErr = d.Open(); openErr != nil {
+					return
+				}
+				for _, f := range []func() (*response.NetconfResponse, error){
+					func() (*response.NetconfResponse, error) { return d.Lock("running") },
+					func() (*response.NetconfResponse, error) { return d.GetConfig("running") },
+					func() (*response.NetconfResponse, error) { return d.Commit() },
+				} {
+					r, err := f()
+					resps, errs = append(resps, r), append(errs, err)
+				}
+			})
+			e.OnFinish(func() {
+				if openErr != nil || e.Verdict != "" {
+					e.Violate("c03:session-failed", "[preferred=%s] open=%v verdict=%s %s", pref, openErr, e.Verdict, e.HangInfo)
+					return
+				}
+				want := "1.1"
+				if pref == "1.0" {
+					want = "1.0"
+				}
+				if srv.Version != want {
+					e.Violate("c03:hellos-negotiate-other-version", "[preferred=%s] the two hellos negotiate %s", pref, srv.Version)
+				}
+				rcv := srv.Received
+				hi := bytes.Index(rcv, []byte(dev.Delim10))
+				if hi < 0 {
+					e.Violate("c03:no-hello", "server never saw the hello delimiter")
+					return
+				}
+				msgs, err := dev.StrictStream(srv.Version, rcv[hi+len(dev.Delim10):])
+				if err != nil || len(msgs) != 3 {
+					e.Violate("c03:stream-not-in-negotiated-framing", "[preferred=%s] negotiated %s: %d messages decoded, %v", pref, srv.Version, len(msgs), err)
+					return
+				}
+				for i, err := range errs {
+					if err != nil || resps[i] == nil || !bytes.Equal(msgs[i], resps[i].Input) {
+						e.Violate("c03:rpc-failed", "[preferred=%s] request %d: %v", pref, i, err)
+					}
+				}
+				e.Observe("pref=%s negotiated=%s", pref, srv.Version)
+			})
+		})
+	}}
+}
+
 func scenarios(tier string) []sched.Scenario {
 	var out []sched.Scenario
 	for _, c := range cases() {
 		out = append(out, scenario(c))
+	}
+	for _, p := range []string{"", "1.0", "1.1"} {
+		out = append(out, prefScenario(p))
 	}
 	return out
 }
@@ -364,7 +445,7 @@ func TestCheck(t *testing.T) {
 	sched.Main(t, sched.Check{
 		ID:    "C03",
 		Level: "exploration",
-		Rule: "exhaustive product: operation (get, get-config, edit-config, copy/delete-config, lock/unlock, validate, 5 commit variants, discard, raw rpc) x argument alphabet (3 datastores, 13 XML payloads incl. multi-byte, 5000-byte, attributes/namespaces, empty-element spellings (several per document, with inner whitespace), entities, percent signs; 2 xpath strings; 5 defaults modes) x {1.0,1.1} x {self-closing on,off} x {header on,off} x position 1..3 in a session (followed by two option-less canary requests that must carry nothing of it); each cell is one session on the real driver over the server model; " +
+		Rule: "exhaustive product: operation (get, get-config, edit-config, copy/delete-config, lock/unlock, validate, 7 commit variants, discard, raw rpc) x argument alphabet (3 datastores, 13 XML payloads incl. multi-byte, 5000-byte, attributes/namespaces, empty-element spellings (several per document, with inner whitespace), entities, percent signs; 2 xpath strings; 5 defaults modes) x {1.0,1.1} x {self-closing on,off} x {header on,off} x position 1..3 in a session (followed by two option-less canary requests that must carry nothing of it); each cell is one session on the real driver over the server model; " +
 			"oracle: strict RFC 6242 / end-of-message stream decoder over the bytes the server received, byte equality with Response.Input/FramedInput, encoding/xml tree equality with an independently written RFC 6241 template, option-independence comparisons across cells; distinct = distinct (operation case, cell, position)",
 		Assumptions: []string{"whitespace-only text equals no text (what forcing self-closing tags may change)", "0 schedule deviations: the property has no schedule dimension"},
 		Scenarios:   scenarios,
